@@ -25,8 +25,9 @@ THEOREMS = [
     "ESV.C07.decompile_ok", "ESV.C07.compile_by_name",
     "ESV.C07.label_resolves_to_next_op", "ESV.C07.label_across_routines", "ESV.C07.alias_routine",
     "ESV.C07.jump_marker_not_last_dropped",
-    "ESV.C07.renumber_order_preserving", "ESV.C07.renumber_bijective", "ESV.C07.jump_table_arity",
+    "ESV.C07.renumber_order_preserving", "ESV.C07.renumber_bijective", "ESV.C07.jump_table_wellformed",
     "ESV.C07.jump_not_last_counterexample", "ESV.C07.generic_target_lost_counterexample",
+    "ESV.C07.named_target_number_lost_counterexample", "ESV.C07.dangling_target_counterexample",
 ]
 
 FIXED = [
@@ -174,7 +175,7 @@ def run(run: core.Run) -> int:
     # ---- correspondence with the Lean model --------------------------------------------------------------------------
     mism = 0
     stats = {"wf_cases": len(wf_cases), "exhaustive_cases": n_exh, "illformed_cases": len(ill_cases), "ast_cases": len(asts),
-             "ill_outcomes": {}, "ast_outcomes": {}, "labels": 0, "jump_ops": 0, "cross_routine_labels": 0}
+             "ill_outcomes": {}, "ast_outcomes": {}, "labels": 0, "jump_ops": 0}
 
     def tie(what: str, detail: dict) -> None:
         nonlocal mism
